@@ -2,6 +2,7 @@ package checks
 
 import (
 	"archive/tar"
+	"archive/zip"
 	"bytes"
 	"compress/gzip"
 	"crypto/sha256"
@@ -91,16 +92,30 @@ func c20WriteCatalogue(dir string, rels []c20Rel) {
 				fmt.Sprintf("https://api.github.com/repos/coreruleset/crs-toolchain/releases/assets/%d", id),
 				fmt.Sprintf("https://github.com/coreruleset/crs-toolchain/releases/download/%s/%d/%s", tag, id, name)})
 		}
-		base := int64(1000 + 10*i)
-		otherName := fmt.Sprintf("crs-toolchain_%s_darwin_arm64.tar.gz", r.Version)
-		other := c20Archive([]byte("other platform binary "+r.Version), false)
+		base := int64(1000 + 20*i)
 		sums := ""
-		if r.Assets == "platform" || r.Assets == "other" {
-			add(base+1, otherName, other)
-			h := sha256.Sum256(other)
-			sums += hex.EncodeToString(h[:]) + "  " + otherName + "\n"
+		// assets that are not for this platform: another OS, another architecture, the Windows zip
+		// (it carries crs-toolchain.exe), a package with this platform's name in it. All are listed
+		// in the checksum file with their true digests.
+		others := func() {
+			for j, o := range []struct {
+				name    string
+				content []byte
+			}{
+				{fmt.Sprintf("crs-toolchain_%s_darwin_arm64.tar.gz", r.Version), c20Archive([]byte("other platform binary "+r.Version), false)},
+				{fmt.Sprintf("crs-toolchain_%s_windows_amd64.zip", r.Version), c20Zip([]byte("MZ windows binary " + r.Version))},
+				{fmt.Sprintf("crs-toolchain_%s_linux_arm64.tar.gz", r.Version), c20Archive([]byte("other architecture binary "+r.Version), false)},
+				{fmt.Sprintf("crs-toolchain_%s_linux_amd64.deb", r.Version), []byte("!<arch>\ndebian-binary " + r.Version)},
+			} {
+				add(base+4+int64(j), o.name, o.content)
+				h := sha256.Sum256(o.content)
+				sums += hex.EncodeToString(h[:]) + "  " + o.name + "\n"
+			}
 		}
-		if r.Assets == "platform" {
+		if r.Assets == "platform" || r.Assets == "other" {
+			others()
+		}
+		if c20HasPlatform(r) {
 			name := fmt.Sprintf("crs-toolchain_%s_linux_amd64.tar.gz", r.Version)
 			arc := c20Archive(c20Binary(r, i), r.Archive == "corrupt")
 			add(base+2, name, arc)
@@ -115,6 +130,9 @@ func c20WriteCatalogue(dir string, rels []c20Rel) {
 				sums += hex.EncodeToString(h[:]) + "  crs-toolchain_" + r.Version + "_linux_386.tar.gz\n"
 			}
 		}
+		if r.Assets == "platform-first" {
+			others()
+		}
 		if r.Checksum != "absent" && r.Assets != "none" {
 			add(base+3, "crs-toolchain-checksums.txt", []byte(sums))
 		}
@@ -122,6 +140,22 @@ func c20WriteCatalogue(dir string, rels []c20Rel) {
 	}
 	b, _ := json.Marshal(out)
 	os.WriteFile(filepath.Join(dir, "releases.json"), b, 0o644)
+}
+
+// c20HasPlatform: the release carries the archive for this platform (listed after or before the other assets).
+func c20HasPlatform(r c20Rel) bool { return r.Assets == "platform" || r.Assets == "platform-first" }
+
+func c20Zip(bin []byte) []byte {
+	var buf bytes.Buffer
+	zw := zip.NewWriter(&buf)
+	w, _ := zw.Create("README.md")
+	w.Write([]byte("hi"))
+	fh := &zip.FileHeader{Name: "crs-toolchain.exe", Method: zip.Deflate}
+	fh.SetMode(0o755)
+	w, _ = zw.CreateHeader(fh)
+	w.Write(bin)
+	zw.Close()
+	return buf.Bytes()
 }
 
 func c20Newer(v, running string) bool {
@@ -144,7 +178,7 @@ func c20Model(c c20Case) (allowed [][]byte, mustFail bool, why string) {
 	// the release a reader would call "the latest for this platform": highest version among published releases with a platform asset
 	best := -1
 	for i, r := range c.Rels {
-		if r.Assets != "platform" || r.Flag != "" {
+		if !c20HasPlatform(r) || r.Flag != "" {
 			continue
 		}
 		if best < 0 || c20Newer(r.Version, c.Rels[best].Version) {
@@ -152,7 +186,7 @@ func c20Model(c c20Case) (allowed [][]byte, mustFail bool, why string) {
 		}
 	}
 	for i, r := range c.Rels {
-		if r.Assets == "platform" && r.Checksum == "matching" && r.Archive == "valid" && c20Newer(r.Version, c.Running) {
+		if c20HasPlatform(r) && r.Checksum == "matching" && r.Archive == "valid" && c20Newer(r.Version, c.Running) {
 			allowed = append(allowed, c20Binary(r, i))
 		}
 	}
@@ -201,6 +235,7 @@ func c20Kinds(full bool) []c20Rel {
 				}
 			}
 			ks = append(ks, c20Rel{v, f, "other", "matching", "valid"})
+			ks = append(ks, c20Rel{v, f, "platform-first", "matching", "valid"})
 			if full {
 				ks = append(ks, c20Rel{v, f, "none", "absent", "valid"})
 			}
@@ -423,7 +458,7 @@ func C20(r *core.Run) {
 	r.Cov["distinct_nontrivial"] = tot.Installed
 	r.Cov["exhaustive"] = len(deaths) == 0
 	r.Cov["bound"] = map[string]any{"release_kinds": len(c20Kinds(true)), "releases_per_catalogue": r.Pick(2, 3), "fault_deviations": r.Pick(1, 2), "fault_kinds": "404, 500, connection error, truncated body at request #1..4", "running_versions": []string{"2.0.0", "v0.0.0-dev", "v2.5.0-rc.1 (a pre-release newer than most releases of the menu)"}}
-	r.Cov["rule"] = "every catalogue of <= n releases over the release kinds (version below/equal/above/far above x published/prerelease/draft x platform asset / other platform / none x checksum matching/absent/wrong/for another name x archive valid/corrupt) x running version, plus every placement of <= d HTTP faults over the requests of four reference catalogues; the real binary (repository code + fake transport) is copied into a sandbox and run as `self-update`; afterwards the executable must be byte-identical or the binary packed in a strictly newer, checksum-verified release for this platform with no fault injected; failures need a non-zero exit; states = executions, transitions = HTTP requests served; non-trivial = executions that installed something"
+	r.Cov["rule"] = "every catalogue of <= n releases over the release kinds (version below/equal/above/far above x published/prerelease/draft x platform asset listed after or before the others / other platforms only (other OS, other architecture, Windows zip with crs-toolchain.exe, .deb named like this platform; all with valid checksums) / none x checksum matching/absent/wrong/for another name x archive valid/corrupt) x running version, plus every placement of <= d HTTP faults over the requests of four reference catalogues; the real binary (repository code + fake transport) is copied into a sandbox and run as `self-update`; afterwards the executable must be byte-identical or the binary packed in a strictly newer, checksum-verified release for this platform with no fault injected; failures need a non-zero exit; states = executions, transitions = HTTP requests served; non-trivial = executions that installed something"
 	r.Cov["samples"] = []any{c20Case{"2.0.0", []c20Rel{{"2.1.0", "", "platform", "wrong", "valid"}}, ""}, c20Case{"dev", []c20Rel{{"3.0.0", "", "other", "matching", "valid"}, {"2.1.0", "", "platform", "matching", "valid"}}, "3:trunc"}}
 	r.Assume = append(r.Assume, "the GitHub REST shape is the fake's (go-github v30 paths: release list, asset by id, browser download URL); TLS and redirects are outside the model",
 		"installing a newer verified pre-release is not forbidden by the statement and is accepted")
